@@ -1,0 +1,44 @@
+//go:build verif
+
+package eventlogger
+
+// This file only exists in builds with the "verif" tag. It lets an external
+// verification harness decode the values that the verifPoint calls of graph.go
+// pass to the installed callback: linked nodes are handed over as opaque
+// pointers, and the harness needs to know which pipeline and position each of
+// them stands for.
+
+// VerifLinkedRef describes one linked node of a registered pipeline together
+// with the opaque value the dispatch hooks pass for it.
+type VerifLinkedRef struct {
+	Ref  interface{} // the *linkedNode, as passed to the hook callback
+	ID   NodeID
+	Node Node
+}
+
+// VerifRoots returns, for one event type, every registered pipeline as the
+// chain of linked nodes a Send traverses (linear pipelines: the first child is
+// followed). ok is false when the type has no graph.
+func (b *Broker) VerifRoots(t EventType) (roots map[PipelineID][]VerifLinkedRef, ok bool) {
+	b.lock.RLock()
+	defer b.lock.RUnlock()
+
+	g, found := b.graphs[t]
+	if !found {
+		return nil, false
+	}
+	roots = make(map[PipelineID][]VerifLinkedRef)
+	g.roots.Range(func(id PipelineID, p *registeredPipeline) bool {
+		var chain []VerifLinkedRef
+		for n := p.rootNode; n != nil; {
+			chain = append(chain, VerifLinkedRef{Ref: n, ID: n.nodeID, Node: n.node})
+			if len(n.next) == 0 {
+				break
+			}
+			n = n.next[0]
+		}
+		roots[id] = chain
+		return true
+	})
+	return roots, true
+}
